@@ -192,6 +192,20 @@ func (r *Run) checkCallers(rule, fnRef string, allowed ...string) {
 			base = c[:i]
 		}
 		good := ok[c] || ok[base]
+		if !good {
+			// a single-use unexported helper belongs to its only caller (extract-function refactor)
+			if cf := r.P.Fn(base); cf != nil && r.P.singleUse(cf) {
+				for _, cc := range r.P.CallerNames(cf) {
+					b2 := cc
+					if i := strings.Index(cc, "$"); i >= 0 {
+						b2 = cc[:i]
+					}
+					if ok[cc] || ok[b2] {
+						good = true
+					}
+				}
+			}
+		}
 		r.Check(rule, fmt.Sprintf("%s called by %s", fnRef, c), r.P.Pos(fn.Pos()), good,
 			fmt.Sprintf("%s may be called from %s, which is not in the allowed caller set %v", fnRef, c, allowed))
 	}
